@@ -32,8 +32,8 @@ static uint16_t   V16;
 static uint32_t   V32, V32ro, V32wo, V32nid, V32sub, V32range, V32user;
 static uint8_t    Dom3[3], DomA[SDO_DS1], DomB[SDO_DS2];
 static CO_OBJ_DOM DomO3, DomOA, DomOB;
-static uint8_t    Str3[4], Str5[6], Str12[13], StrV[SDO_DS2 + 1];
-static CO_OBJ_STR StrO3, StrO5, StrO12, StrOV;
+static uint8_t    Str3[4], Str5[6], Str12[13], StrV[SDO_DS2 + 1], StrW[13];
+static CO_OBJ_STR StrO3, StrO5, StrO12, StrOV, StrOW;
 
 /* user types */
 static uint32_t UtSize(CO_OBJ *o, CO_NODE *n, uint32_t w) { (void)o; (void)n; (void)w; return 4; }
@@ -63,7 +63,7 @@ static const CO_OBJ_TYPE UtUser  = { UtSize, 0, UtRead, UtUserWrite, 0 };
 
 enum { K_BASIC, K_DOMAIN, K_STRING, K_RANGE, K_USER };
 typedef struct { uint16_t idx; uint8_t sub, rd, wr, kind; uint32_t size; uint8_t *mem; uint8_t direct, nid; } ODesc;
-enum { O_U8, O_U16, O_U32, O_U32D, O_RO, O_WO, O_NID, O_U16D, O_U8D, O_U32Z, O_PSTORE0, O_DOM3, O_DOMA, O_DOMB, O_STR3, O_STR5, O_STR12, O_STRV, O_SUB0, O_SUB1, O_RANGE, O_USER, O_N };
+enum { O_U8, O_U16, O_U32, O_U32D, O_RO, O_WO, O_NID, O_U16D, O_U8D, O_U32Z, O_PSTORE0, O_DOM3, O_DOMA, O_DOMB, O_STR3, O_STR5, O_STR12, O_STRV, O_STRW, O_SUB0, O_SUB1, O_RANGE, O_USER, O_N };
 static ODesc OBJ[O_N];
 static uint8_t MV[O_N][SDO_DS2 + 1];       /* the model's copy of every object's SDO-visible value */
 static uint8_t MV0[O_N][SDO_DS2 + 1];      /* ... and the initial values */
@@ -96,13 +96,13 @@ static void sdo_world_build(uint32_t nmt_operational)
     for (i = 0; i < 3; i++) Dom3[i] = (uint8_t)(0xA0 + i);
     for (i = 0; i < SDO_DS1; i++) DomA[i] = (uint8_t)(0xB0 + i);
     for (i = 0; i < SDO_DS2; i++) DomB[i] = (uint8_t)(0x40 + (i % 0x3F));
-    memcpy(Str3, "abc", 4); memcpy(Str5, "hello", 6); memcpy(Str12, "hello, world", 13);
+    memcpy(Str3, "abc", 4); memcpy(Str5, "hello", 6); memcpy(Str12, "hello, world", 13); memcpy(StrW, "write me not", 13);
     DomO3.Offset = 0; DomO3.Size = 3; DomO3.Start = Dom3;
     DomOA.Offset = 0; DomOA.Size = SDO_DS1; DomOA.Start = DomA;
     DomOB.Offset = 0; DomOB.Size = SDO_DS2; DomOB.Start = DomB;
     for (i = 0; i < 9; i++) StrV[i] = (uint8_t)('A' + i);
     StrV[9] = 0; StrOV.Offset = 0; StrOV.Start = StrV;
-    StrO3.Offset = 0; StrO3.Start = Str3; StrO5.Offset = 0; StrO5.Start = Str5; StrO12.Offset = 0; StrO12.Start = Str12;
+    StrO3.Offset = 0; StrO3.Start = Str3; StrO5.Offset = 0; StrO5.Start = Str5; StrO12.Offset = 0; StrO12.Start = Str12; StrOW.Offset = 0; StrOW.Start = StrW;
     od_init(&b, OD, 64); od_mandatory(&b, &ErrReg); od_sdo_server0(&b);
 #if CO_SSDO_N > 1
     /* the second server's identifiers are writable and live in a stored communication parameter group (1010h:3): RAM and NVM can differ at a reset */
@@ -137,6 +137,9 @@ static void sdo_world_build(uint32_t nmt_operational)
     od_add(&b, CO_KEY(0x2021, 0, CO_OBJ_____R_), CO_TSTRING, (CO_DATA)&StrO5);
     od_add(&b, CO_KEY(0x2022, 0, CO_OBJ_____R_), CO_TSTRING, (CO_DATA)&StrO12);
     od_add(&b, CO_KEY(0x2023, 0, CO_OBJ_____R_), CO_TSTRING, (CO_DATA)&StrOV);
+    /* a string whose key says "writable" although the string type has no write function: every download to it has to be refused -
+     * with exactly one abort frame, whatever the transfer mode, and the server is idle afterwards */
+    od_add(&b, CO_KEY(0x2024, 0, CO_OBJ_____RW), CO_TSTRING, (CO_DATA)&StrOW);
     od_add(&b, CO_KEY(0xA030, 0, CO_OBJ_D___R_), CO_TUNSIGNED8,  (CO_DATA)1);
     od_add(&b, CO_KEY(0xA030, 1, CO_OBJ_____RW), CO_TUNSIGNED32, (CO_DATA)&V32sub);
     od_add(&b, CO_KEY(0xA040, 0, CO_OBJ_____RW), &UtRange, (CO_DATA)&V32range);
@@ -159,6 +162,7 @@ static void sdo_world_build(uint32_t nmt_operational)
     sdo_def(O_STR5, 0x2021, 0, 1, 0, K_STRING, 5, Str5, 0, 0);
     sdo_def(O_STR12,0x2022, 0, 1, 0, K_STRING, 12, Str12, 0, 0);
     sdo_def(O_STRV, 0x2023, 0, 1, 0, K_STRING, 9, StrV, 0, 0);
+    sdo_def(O_STRW, 0x2024, 0, 1, 1, K_STRING, 12, StrW, 0, 0);
     sdo_def(O_SUB0, 0xA030, 0, 1, 0, K_BASIC, 1, 0, 1, 0);
     sdo_def(O_SUB1, 0xA030, 1, 1, 1, K_BASIC, 4, &V32sub, 0, 0);
     sdo_def(O_RANGE,0xA040, 0, 1, 1, K_RANGE, 4, &V32range, 0, 0);
@@ -180,7 +184,7 @@ static void sdo_world_build(uint32_t nmt_operational)
     W_REG(Node); W_REG(OD); W_REG(ErrReg); W_REG(SdoBuf); W_REG(TMem);
     W_REG(V8); W_REG(V16); W_REG(V32); W_REG(V32ro); W_REG(V32wo); W_REG(V32nid); W_REG(V32sub); W_REG(V32range); W_REG(V32user);
     W_REG(Dom3); W_REG(DomA); W_REG(DomB); W_REG(DomO3); W_REG(DomOA); W_REG(DomOB);
-    W_REG(StrO3); W_REG(StrO5); W_REG(StrO12); W_REG(StrOV); W_REG(StrV);
+    W_REG(StrO3); W_REG(StrO5); W_REG(StrO12); W_REG(StrOV); W_REG(StrV); W_REG(StrOW); W_REG(StrW);
     W_REG(MV);
     for (i = 0; i < CO_SSDO_N; i++) w_nohash_range(&Node.Sdo[i].Frm, sizeof Node.Sdo[i].Frm);   /* points into the stack */
 }
@@ -190,7 +194,7 @@ static void sdo_world_build(uint32_t nmt_operational)
  * and the read/write offsets of objects no server addresses are zeroed for hashing only.  The merged states are
  * assumed to have equal futures; the fine-grained explorations (coarse=0) check exactly that assumption to
  * their depth bound - stale-field reads such as the A3h-while-idle defect are found there. */
-static struct { CO_SDO sdo[CO_SSDO_N]; uint8_t buf[sizeof SdoBuf]; uint32_t off[7]; int active; } SdoSave;
+static struct { CO_SDO sdo[CO_SSDO_N]; uint8_t buf[sizeof SdoBuf]; uint32_t off[8]; int active; } SdoSave;
 static void sdo_prehash(int phase);
 static int sdo_coarse;
 static int sdo_find(uint16_t idx, uint8_t sub) { for (int i = 0; i < O_N; i++) if (OBJ[i].idx == idx && OBJ[i].sub == sub) return i; return -1; }
@@ -314,6 +318,9 @@ static int idle_row(SModel *m, int srvno, const uint8_t *req, const WFrame *resp
     #define NEED_ABORT(c, what) do { if (r[0] != 0x80 || code != (c) || f_mux(r) != f_mux(req)) { *sig = "sdo-wrong-verdict"; \
         snprintf(sdo_diag, sizeof sdo_diag, "%s: expected abort %08X for %04X:%02X", what, (unsigned)(c), idx, sub); return 0; } return 1; } while (0)
 
+    #define NEED_ANY_ABORT(what) do { if (r[0] != 0x80 || f_mux(r) != f_mux(req)) { *sig = "sdo-wrong-verdict"; \
+        snprintf(sdo_diag, sizeof sdo_diag, "%s: expected an abort for %04X:%02X", what, idx, sub); return 0; } return 1; } while (0)
+
     if ((cmd & 0xE0) == 0x20) {                                   /* initiate download */
         int e = (cmd >> 1) & 1, s = cmd & 1, n = (cmd >> 2) & 3;
         if (cmd & 0x10) { if (r[0] == 0x80) return 1; /* reserved bit set: abort admissible, else treat as if clear */ }
@@ -321,6 +328,7 @@ static int idle_row(SModel *m, int srvno, const uint8_t *req, const WFrame *resp
         if (vd == V_EITHER) { if (r[0] == 0x80) return 1; if (r[0] == 0x60 && f_mux(r) == f_mux(req)) { if (!e) { m->st = S_UNSPEC; } return 1; }
             snprintf(sdo_diag, sizeof sdo_diag, "untracked object: neither abort nor confirmation"); return 0; }
         if (vd != V_ACCEPT) NEED_ABORT(vd, "lookup/access");
+        if (OBJ[oi].kind == K_STRING) NEED_ANY_ABORT("download to an object whose type cannot be written");
         uint32_t S = OBJ[oi].size;
         if (e) {
             uint32_t L = s ? (uint32_t)(4 - n) : S;
@@ -378,6 +386,7 @@ static int idle_row(SModel *m, int srvno, const uint8_t *req, const WFrame *resp
         vd = verdict_lookup(idx, sub, 1, &oi);
         if (vd == V_EITHER) { if (r[0] == 0x80) return 1; m->st = S_UNSPEC; return 1; }
         if (vd != V_ACCEPT) NEED_ABORT(vd, "lookup/access");
+        if (OBJ[oi].kind == K_STRING) NEED_ANY_ABORT("download to an object whose type cannot be written");
         uint32_t S = OBJ[oi].size, L = s ? w_get32(req + 4) : 0;
         if (s && L > S) NEED_ABORT(CO_SDO_ERR_LEN_HIGH, "announced length too high");
         if (s && L < S && OBJ[oi].kind != K_DOMAIN) { if (r[0] == 0x80 && code == CO_SDO_ERR_LEN_SMALL && f_mux(r) == f_mux(req)) return 1; }
@@ -408,6 +417,7 @@ static int idle_row(SModel *m, int srvno, const uint8_t *req, const WFrame *resp
     if ((cmd & 0xE0) == 0xE0 && code != CO_SDO_ERR_CMD) { *sig = "sdo-wrong-verdict"; snprintf(sdo_diag, sizeof sdo_diag, "undefined command specifier must be refused with 0504 0001h, got %08X", code); return 0; }
     return 1;
     #undef NEED_ABORT
+    #undef NEED_ANY_ABORT
 }
 
 /* upload block streaming check: frames resp[0..n) must be segments 1..k of the data starting at m->off */
@@ -678,11 +688,11 @@ static void sdo_content_reset(void)
 
 static void sdo_prehash(int phase)
 {
-    uint32_t *offs[7] = { &DomO3.Offset, &DomOA.Offset, &DomOB.Offset, &StrO3.Offset, &StrO5.Offset, &StrO12.Offset, &StrOV.Offset };
-    void *odat[7] = { &DomO3, &DomOA, &DomOB, &StrO3, &StrO5, &StrO12, &StrOV };
+    uint32_t *offs[8] = { &DomO3.Offset, &DomOA.Offset, &DomOB.Offset, &StrO3.Offset, &StrO5.Offset, &StrO12.Offset, &StrOV.Offset, &StrOW.Offset };
+    void *odat[8] = { &DomO3, &DomOA, &DomOB, &StrO3, &StrO5, &StrO12, &StrOV, &StrOW };
     if (phase == 0) {
         memcpy(SdoSave.sdo, Node.Sdo, sizeof SdoSave.sdo); memcpy(SdoSave.buf, SdoBuf, sizeof SdoBuf);
-        for (int k = 0; k < 7; k++) SdoSave.off[k] = *offs[k];
+        for (int k = 0; k < 8; k++) SdoSave.off[k] = *offs[k];
         for (int n = 0; n < CO_SSDO_N; n++) {
             CO_SDO *s = &Node.Sdo[n]; int st = SM[n].st;
             int seg = (st == S_SEGDL || st == S_SEGUL), blk = (st == S_BLKDL || st == S_BLKDL_END || st == S_BLKUL_INIT || st == S_BLKUL || st == S_BLKUL_END);
@@ -702,14 +712,14 @@ static void sdo_prehash(int phase)
                 memset(SdoBuf + (size_t)n * CO_SDO_BUF_BYTE, 0, CO_SDO_BUF_BYTE);
             }
         }
-        for (int k = 0; k < 7; k++) {
+        for (int k = 0; k < 8; k++) {
             int used = 0;
             for (int n = 0; n < CO_SSDO_N; n++) if (Node.Sdo[n].Obj && (void *)Node.Sdo[n].Obj->Data == odat[k]) used = 1;
             if (!used) *offs[k] = 0;
         }
     } else {
         memcpy(Node.Sdo, SdoSave.sdo, sizeof SdoSave.sdo); memcpy(SdoBuf, SdoSave.buf, sizeof SdoBuf);
-        for (int k = 0; k < 7; k++) *offs[k] = SdoSave.off[k];
+        for (int k = 0; k < 8; k++) *offs[k] = SdoSave.off[k];
     }
 }
 
